@@ -2,7 +2,7 @@
 bit-identical untouched wells (LOCAL), on every transfer of generated histories incl. nested ones."""
 from __future__ import annotations
 
-from .common import shard, run_cases, BASE_ASSUMPTIONS, repo_suite, repo_suite_job
+from .common import shard, run_cases, BASE_ASSUMPTIONS, repo_suite, repo_suite_job, under_density_configs
 
 ID = 'C01'
 LEVEL = 'exploration'
@@ -25,6 +25,9 @@ def required_buckets(tier):
 
 def plan(tier, seed):
     jobs = _plan(tier, seed)
+    # the same histories under the documented non-default densities (a fraction of the budget)
+    n_cfg = 24 if tier == 'quick' else 400
+    jobs = jobs + under_density_configs(shard('history', n_cfg, 2 if tier == 'quick' else 8))
     if tier != 'quick' or False:
         jobs = jobs + repo_suite_job()
     return jobs
